@@ -629,7 +629,7 @@ AbuseTable ==
      close_error_wrapping_sentinel_parent_0 |-> AOK, close_error_wrapping_sentinel_parent_1 |-> AOK,
      close_error_wrapping_sentinel_provider_0 |-> AOK, close_error_wrapping_sentinel_provider_1 |-> AOK]
 \* calls of the battery that also speak for other properties
-ReClose == {"C12", "C13", "C10"}
+ReClose == {"C12", "C13", "C10", "C09"}
 AbuseTags == [value_disposables_closed |-> {"C10", "C12"},
               reentrant_close_via_scope |-> ReClose, reentrant_close_via_parent |-> ReClose, reentrant_close_via_provider |-> ReClose,
               reentrant_goclose_via_scope |-> ReClose, reentrant_goclose_via_parent |-> ReClose, reentrant_goclose_via_provider |-> ReClose,
